@@ -60,12 +60,12 @@ type DmaCase struct {
 }
 
 type dmaRunner struct {
-	dma        *cp.DMAEngine
-	toCP       sim.Port
-	toMem      sim.Port
-	copyGoID   map[uint64]string // canonical copy id -> Go ID (first delivery)
-	copyCanon  map[string]uint64
-	subGoIDs   []string
+	dma       *cp.DMAEngine
+	toCP      sim.Port
+	toMem     sim.Port
+	copyGoID  map[uint64]string // canonical copy id -> Go ID (first delivery)
+	copyCanon map[string]uint64
+	subGoIDs  []string
 }
 
 func agent(n uint64) sim.RemotePort { return sim.RemotePort(fmt.Sprintf("Agent%d", n)) }
